@@ -1,6 +1,9 @@
 """C18 - biomolecule sequences are the sum of their residues."""
 from contracts import fasta as FA
 
+from contracts import formulas as F_DEP
+from contracts import core as K_DEP
+from contracts import formulas as FO_DEP
 ID = "C18"
 LEVEL = "other"
 TRUSTED = ["A7 residue literals and ambiguity sets read from fasta.py's source by ast/tokenize (runner/c18.py)"]
@@ -8,14 +11,15 @@ EXPLANATION = ("Deductive: _guess_type_from_filename, read_fasta (records per '>
 
 
 def units(tier):
-    return (FA.U_GUESS_TYPE + FA.U_READ_FASTA + FA.U_CODE_AVERAGE) + FA.U_MOLECULE_INIT + FA.U_SEQUENCE_INIT
+    return (FA.U_GUESS_TYPE + FA.U_READ_FASTA + FA.U_CODE_AVERAGE) + FA.U_MOLECULE_INIT + FA.U_SEQUENCE_INIT + ([K_DEP.L_ATOM_IDENTITY] + [F_DEP.U_COUNT_ATOMS, F_DEP.U_ATOMS]) + ([K_DEP.U_CHANGE_TABLE, FO_DEP.U_CHANGE_TABLE_ATOM, FO_DEP.U_CHANGE_TABLE_STRUCT])
 
 
 def runner_tasks(tier):
     return [{"module": "c18", "task": "code_tables", "kind": "eval", "clause": "every code of the three tables; ambiguity averages"},
             {"module": "c18", "task": "additivity", "kind": "bounded", "clause": "random sequences, permutations, prefixes"},
             {"module": "c18", "task": "fasta_files", "kind": "bounded", "clause": "FASTA records and type by extension"},
-            {"module": "stateful", "task": "C18", "name": "stateful C18", "kind": "bounded", "clause": "sequences built after single codes were requested through the prefixes on a private table and after callers edited the formulas they were given"}]
+            {"module": "stateful", "task": "C18", "name": "stateful C18", "kind": "bounded", "clause": "sequences built after single codes were requested through the prefixes on a private table and after callers edited the formulas they were given"},
+            {"module": "independence", "task": "observations", "name": "independence", "kind": "bounded", "arg": {"tags": ["C18"]}, "clause": "fixed observations give the same value as the first use of the library in a fresh interpreter, in a warmed-up interpreter (twice) and in reverse order, and have their documented value", "timeout": 900}]
 
 
 REPLAY = {"module": "c18", "task": "replay"}
